@@ -31,8 +31,49 @@ static void vp_exit(int code);
 struct set_node *vp_log_alloc(size_t size);
 #undef set_node_alloc
 #define set_node_alloc(SIZE) vp_log_alloc(SIZE)
+#ifndef REPLAY
+/* copy models for src/log.c (A2.11): CBMC's strdup/memcpy return bytes it no longer treats as
+ * constants, after which every name comparison of the rescan is symbolic.  The models copy
+ * element by element (constants stay constants) and assign the vtable as a struct (function
+ * pointers stay pointers); the working copy is a block of fixed size.  The native replay uses
+ * the real functions. */
+static char *vp_xstrdup48(const char *s)
+{
+    char *p;
+    unsigned i;
+    if (!s) return NULL;
+    p = malloc(48);
+    __CPROVER_assume(p != NULL);
+    for (i = 0; i < 47; i++) {
+        p[i] = s[i];
+        if (s[i] == '\0')
+            break;
+    }
+    p[47] = '\0';
+    return p;
+}
+struct log_destination_vtable;
+static void *vp_log_memcpy(void *d, const void *s, size_t n);
+#define xstrdup vp_xstrdup48
+#define memcpy vp_log_memcpy
+#endif
 #include "src/log.c"
+#undef xstrdup
+#undef memcpy
 #undef conf
+#ifndef REPLAY
+static void *vp_log_memcpy(void *d, const void *s, size_t n)
+{
+    if (n == sizeof(struct log_destination_vtable)) {
+        *(struct log_destination_vtable *)d = *(const struct log_destination_vtable *)s;
+    } else {
+        size_t i;
+        for (i = 0; i < n; i++)
+            ((char *)d)[i] = ((const char *)s)[i];
+    }
+    return d;
+}
+#endif
 struct vp_lt_elt { struct set_node node; struct log_type lt; char name[16]; };
 struct vp_vt_elt { struct set_node node; struct log_destination_vtable vt; };
 struct set_node *vp_log_alloc(size_t size)
